@@ -69,6 +69,81 @@ class Cls:
         return f'<Cls {self.name}>'
 
 
+def _normalise_namedtuples(trees):
+    """A named tuple is a tuple: `N = namedtuple('N', ['a', 'b'])` (module level, or as the base of a class that only adds methods) makes
+    `N(x, y)` the tuple `(x, y)` and `e.a` the element `e[0]`.  Both are rewritten that way (in place, positions kept) so that every rule
+    sees the entries of the package's lists as the plain tuples they are.  An attribute read is rewritten only when its name is a field of
+    exactly one named tuple of the package and is used for nothing else in the package (no attribute store, method, property or class
+    attribute of that name), so that `e.a` cannot be anything but the field."""
+    defs = {}
+
+    def fields_of(call):
+        if not (isinstance(call, ast.Call) and ((isinstance(call.func, ast.Name) and call.func.id == 'namedtuple') or
+                                                (isinstance(call.func, ast.Attribute) and call.func.attr == 'namedtuple')) and len(call.args) >= 2):
+            return None
+        f = call.args[1]
+        if isinstance(f, (ast.List, ast.Tuple)) and all(isinstance(x, ast.Constant) and isinstance(x.value, str) for x in f.elts):
+            return [x.value for x in f.elts]
+        if isinstance(f, ast.Constant) and isinstance(f.value, str):
+            return f.value.replace(',', ' ').split()
+        return None
+    for t in trees:
+        for st in t.body:
+            if isinstance(st, ast.Assign) and len(st.targets) == 1 and isinstance(st.targets[0], ast.Name):
+                fs = fields_of(st.value)
+                if fs:
+                    defs[st.targets[0].id] = fs
+            elif isinstance(st, ast.ClassDef) and len(st.bases) == 1:
+                fs = fields_of(st.bases[0])
+                if fs and not any(isinstance(b, ast.FunctionDef) and b.name in ('__new__', '__init__', '__getattr__', '__getitem__', '__iter__', '__len__', '__eq__') for b in st.body):
+                    defs[st.name] = fs
+    if not defs:
+        return
+    owners = {}
+    for n_, fs in defs.items():
+        for i, f in enumerate(fs):
+            owners.setdefault(f, []).append((n_, i))
+    taken = set()
+    for t in trees:
+        for x in ast.walk(t):
+            if isinstance(x, ast.Attribute) and isinstance(x.ctx, (ast.Store, ast.Del)):
+                taken.add(x.attr)
+            elif isinstance(x, (ast.FunctionDef, ast.AsyncFunctionDef, ast.ClassDef)):
+                taken.add(x.name)
+            elif isinstance(x, ast.ClassDef):
+                pass
+        for c in [x for x in ast.walk(t) if isinstance(x, ast.ClassDef)]:
+            for b in c.body:
+                if isinstance(b, ast.Assign):
+                    for tg in b.targets:
+                        if isinstance(tg, ast.Name):
+                            taken.add(tg.id)
+    field_index = {f: o[0][1] for f, o in owners.items() if len(o) == 1 and f not in taken}
+
+    class T(ast.NodeTransformer):
+        def visit_Call(self, n):
+            self.generic_visit(n)
+            if isinstance(n.func, ast.Name) and n.func.id in defs and not any(isinstance(a, ast.Starred) for a in n.args):
+                fs = defs[n.func.id]
+                vals = dict(zip(fs, n.args))
+                for k in n.keywords:
+                    if k.arg is None or k.arg not in fs or k.arg in vals:
+                        return n
+                    vals[k.arg] = k.value
+                if set(vals) == set(fs):
+                    return ast.copy_location(ast.Tuple(elts=[vals[f] for f in fs], ctx=ast.Load()), n)
+            return n
+
+        def visit_Attribute(self, n):
+            self.generic_visit(n)
+            if isinstance(n.ctx, ast.Load) and n.attr in field_index:
+                return ast.copy_location(ast.Subscript(value=n.value, slice=ast.copy_location(ast.Constant(field_index[n.attr]), n), ctx=ast.Load()), n)
+            return n
+    for t in trees:
+        T().visit(t)
+        ast.fix_missing_locations(t)
+
+
 class Program:
     def __init__(self, root='/repo', pkg='simprocesd', exclude=('tests',)):
         self.root = pathlib.Path(root)
@@ -91,7 +166,9 @@ class Program:
                 tree = ast.parse(src, str(p))
             except SyntaxError as e:
                 raise AnalysisError(f'{rel}: does not parse: {e}')
-            self.mods[name] = Mod(name, p, tree, is_pkg, src)
+            self.mods[name] = (name, p, tree, is_pkg, src)
+        _normalise_namedtuples([t[2] for t in self.mods.values()])
+        self.mods = {k: Mod(*t) for k, t in self.mods.items()}
         for m in self.mods.values():
             self._bind(m)
         self.classes = {}
